@@ -226,9 +226,9 @@ def plan(tier, seed):
     for ka in (False, True):
         specs.append({"mode": "connect", "ka": ka, "depth": 3 if tier == "quick" else 4})
     # random deeper multi-request histories
-    nrand = 8 if tier == "quick" else 48
+    nrand = 8 if tier == "quick" else 96
     for i in range(nrand):
-        specs.append({"mode": "random", "seed": f"{seed}:C04:{i}", "n": 300 if tier == "quick" else 4000})
+        specs.append({"mode": "random", "seed": f"{seed}:C04:{i}", "n": 300 if tier == "quick" else 6000})
     return specs
 
 
